@@ -128,9 +128,13 @@ func writeEvidence(prop, tier string, results []*harnessResult, violations int, 
 		"wall_s":      round2(wall),
 		"violations":  violations,
 	}
-	os.MkdirAll(filepath.Join(verifDir, "evidence"), 0o755)
+	evDir := filepath.Join(verifDir, "evidence")
+	if repoDir != "/repo" {
+		evDir = filepath.Join(verifDir, "out", "trial-evidence")
+	}
+	os.MkdirAll(evDir, 0o755)
 	data, _ := json.MarshalIndent(ev, "", " ")
-	os.WriteFile(filepath.Join(verifDir, "evidence", prop+".json"), data, 0o644)
+	os.WriteFile(filepath.Join(evDir, prop+".json"), data, 0o644)
 }
 
 func max64(a, b int64) int64 {
